@@ -589,6 +589,20 @@ impl<'a> Exec<'a> {
                         Stats::bump(&mut self.stats.probes, "alias_encoding_delivered");
                         Some(bytes.0.clone())
                     }
+                    // the same through bincode / JSON: bytes that load but are stored back as
+                    // other bytes are not the message they resemble
+                    (Some(c), cd @ (Codec::Bincode | Codec::Json)) => {
+                        let again = self.s.decode(*kind, *cd, &bytes.0).ok().and_then(|it| self.s.encode(&it, *cd).ok());
+                        if again.as_deref() == Some(bytes.0.as_slice()) {
+                            Some(c)
+                        } else {
+                            self.stats.alias_skipped += 1;
+                            Stats::bump(&mut self.stats.probes, "alias_encoding_delivered");
+                            let mut marked = b"alias-of:".to_vec();
+                            marked.extend_from_slice(&bytes.0);
+                            Some(marked)
+                        }
+                    }
                     (c, _) => c,
                 };
                 self.wire.push((*kind, bytes.0.clone()));
